@@ -20,6 +20,8 @@ ANN = [('# hello world', True, 'hello world'), ('// slashes', True, 'slashes'), 
        ('# ' + 'a long annotation ' * 3, True, ('a long annotation ' * 3).strip()), ('/* ' + 'w' * 33 + ' */', False, 'w' * 33),
        ('#\x0c form feed and vertical tab \x0b', True, 'form feed and vertical tab'), ('/*\x0b\x0c both ends \x0c*/', False, 'both ends'),
        ('/* dos\r\n   lines\r\n   here */', False, 'dos\r\n   lines\r\n   here'), ('// tab end\t', True, 'tab end'),
+       ('# ' + 'word ' * 30, True, ('word ' * 30).strip()), ('/* ' + 'a somewhat longer annotation, ' * 12 + 'end */', False, 'a somewhat longer annotation, ' * 12 + 'end'),
+       ('# ' + 'x' * 5000, True, 'x' * 5000), ('/* first line\n' + 'more text on this line ' * 8 + '\nlast */', False, 'first line\n' + 'more text on this line ' * 8 + '\nlast'),
        ('# ends a C comment */ early', True, 'ends a C comment */ early'), ('// a */', True, 'a */'), ('# */', True, '*/'),
        ('#', True, None), ('//', True, None), ('/**/', False, None), ('/* */', False, None), ('###', True, None)]
 RULE = ('grammar-derived accepted texts and token-mutated rejected texts x every token boundary (also inside lists, after =, between section name/title and {, '
